@@ -1,9 +1,146 @@
 import TaurexModel.Proto
+import TaurexModel.OptimizerSM
 
 namespace Taurex.Ops.C07
-open Taurex.Proto
+open Taurex.Proto Taurex.Priors Taurex.OptimizerSM
 
-/-- operations of the C07 model served by `driver_c07` (filled in by the C07 check) -/
-def ops : List Op := []
+abbrev S := St String Float
+
+def modeP : P FitMode := do
+  let n ← nat
+  pure (if n == 0 then FitMode.linear else FitMode.log)
+
+def paramP : P (Param String Float) := do
+  let name ← tok
+  let mode ← modeP
+  let fit ← bool
+  let b0 ← flt
+  let b1 ← flt
+  let v ← flt
+  pure ⟨name, mode, fit, b0, b1, v⟩
+
+def derivedP : P (Derived String) := do
+  let name ← tok
+  let c ← bool
+  pure ⟨name, c⟩
+
+/-- a prior given by the constructor call the harness made:
+    0 `Uniform(bounds)` 1 `LogUniform(bounds)` 2 `LogUniform(lin_bounds)` 3 `Gaussian(mean,std)`
+    4 `LogGaussian(mean,std)` 5 `LogGaussian(lin_mean,std)`; fails where the Python constructor raises -/
+def priorCtorP : P (Prior Float) := do
+  let k ← nat
+  let a ← flt
+  let b ← flt
+  match k with
+  | 0 => pure (mkUniform a b)
+  | 1 => pure (mkLogUniform a b)
+  | 2 => match mkLogUniformLin a b with
+    | some p => pure p
+    | none => failure
+  | 3 => pure (mkGaussian a b)
+  | 4 => match mkLogGaussian a b none none with
+    | some p => pure p
+    | none => failure
+  | 5 => match mkLogGaussian 0 b (some a) none with
+    | some p => pure p
+    | none => failure
+  | _ => failure
+
+def opP : P (Op String Float) := do
+  let k ← nat
+  match k with
+  | 0 => do let n ← tok; pure (.enableFit n)
+  | 1 => do let n ← tok; pure (.disableFit n)
+  | 2 => do let n ← tok; let m ← tok; pure (.setMode n m)
+  | 3 => do let n ← tok; let a ← flt; let b ← flt; pure (.setBoundary n a b)
+  | 4 => do let n ← tok; let a ← flt; let b ← flt; pure (.setFactorBoundary n a b)
+  | 5 => do let n ← tok; let p ← priorCtorP; pure (.setPrior n p)
+  | 6 => do let n ← tok; pure (.enableDerived n)
+  | 7 => do let n ← tok; pure (.disableDerived n)
+  | 8 => pure .compile
+  | 9 => do let v ← listOf flt; pure (.updateModel v)
+  | _ => failure
+
+def fOut : Out → String
+  | .ok => "0"
+  | .keyError => "1"
+  | .valueError => "2"
+
+def fMode : FitMode → String
+  | .linear => "0"
+  | .log => "1"
+
+def fParam (p : Param String Float) : String :=
+  s!"{fMode p.mode} {fB p.fit} {fF p.b0} {fF p.b1} {fF p.value}"
+
+def fPrior (z10 z90 : Float) (p : Prior Float) : String :=
+  let ppf : Float → Float := fun u => if u == 0.1 then z10 else z90
+  let (lo, hi) := p.boundaries ppf
+  let (k, a, b) : Nat × Float × Float := match p with
+    | .uniform a b => (0, a, b)
+    | .logUniform a b => (1, a, b)
+    | .gaussian a b => (2, a, b)
+    | .logGaussian a b => (3, a, b)
+  s!"{k} {fF a} {fF b} {fF lo} {fF hi}"
+
+/-- `'log_{}'.format(name)` -/
+def fName (x : Bool × String) : String := if x.1 then "log_" ++ x.2 else x.2
+
+/-- everything the harness compares after a step -/
+def fObs (z10 z90 : Float) (s : S) (o : Out) : String :=
+  " ".intercalate [
+    fOut o,
+    fList fParam s.model,
+    fList fParam s.obs,
+    fList (fun d => fB d.compute) s.dmodel,
+    fList (fun d => fB d.compute) s.dobs,
+    fOpt (fList fName) (fitNames s),
+    fOpt (fList fF) (fitValues s),
+    fOpt (fList (fun b => fF b.1 ++ " " ++ fF b.2)) (fitBoundaries s),
+    fList (fPrior z10 z90) s.compiledPriors,
+    fList id s.derivedCompiled ]
+
+def trace (stepF : S → Op String Float → S × Out) (z10 z90 : Float) : S → List (Op String Float) → List String
+  | _, [] => []
+  | s, op :: ops =>
+    let r := stepF s op
+    fObs z10 z90 r.1 r.2 :: trace stepF z10 z90 r.1 ops
+
+/-- `c07.run z10 z90 model obs dmodel dobs ops` → number of steps + 1, then one observation per state
+    (the initial one first) -/
+def runOp (pinned : Bool) (args : List String) : Option String :=
+  run (do
+    let z10 ← flt
+    let z90 ← flt
+    let model ← listOf paramP
+    let obs ← listOf paramP
+    let dmodel ← listOf derivedP
+    let dobs ← listOf derivedP
+    let ops ← listOf opP
+    let s0 : S := initSt model obs dmodel dobs
+    let stepF := if pinned then stepPinned else step
+    let obsv := fObs z10 z90 s0 .ok :: trace stepF z10 z90 s0 ops
+    pure (fList id obsv)) args
+
+/-- `c07.implied z10 z90 model obs dmodel dobs userpriors(list of name ctor)` → out, entries (owner name mode b0 b1),
+    priors, derived names, implied names — the specification evaluated on given settings -/
+def impliedOp (args : List String) : Option String :=
+  run (do
+    let z10 ← flt
+    let z90 ← flt
+    let model ← listOf paramP
+    let obs ← listOf paramP
+    let dmodel ← listOf derivedP
+    let dobs ← listOf derivedP
+    let user ← listOf (do let n ← tok; let p ← priorCtorP; pure (n, p))
+    let tbl : Table String Float := user.foldl (fun t np => tset t np.1 np.2) []
+    let (v, o) := implied (⟨model, obs, dmodel, dobs, tbl⟩ : Settings String Float)
+    let fEntry : Entry String Float → String := fun e =>
+      s!"{if e.owner = Owner.model then 0 else 1} {e.name} {fMode e.mode} {fF e.b0} {fF e.b1}"
+    pure (" ".intercalate [fOut o, fList fEntry v.entries, fList (fPrior z10 z90) v.priors, fList id v.derived,
+                           fList fName (impliedNames v)])) args
+
+def ops : List Taurex.Proto.Op :=
+  [("c07.run", runOp false), ("c07.run_pinned", runOp true), ("c07.implied", impliedOp)]
 
 end Taurex.Ops.C07
